@@ -267,6 +267,41 @@ func checkC02(c *Ctx) Meta {
 	c.aliasFrom, c.aliasTo = "", ""
 	c.Rule("C02-PUBLIVE", "the public hierarchy stays usable for the life of the keystore object: the fields the loader fills once and nothing re-derives (cryptoKeyPub, masterKeyPub, the account and branch public keys) are never zeroed — every address persisted afterwards would be sealed under an all-zero key and the store could not be reopened", 1)
 	c02PubLive(c)
+	// the memory side gets the NEW value
+	if f := c.MustFn("C02-PAIR", "poc/wallet/keystore", "(*KeystoreManagerForPoC).ChangePubPassphrase"); f != nil {
+		key := "ChangePubPassphrase:memory-gets-the-new-passphrase"
+		ok, n := true, 0
+		for _, a := range fieldAccesses(f) {
+			if a.Kind == "store" && a.Type == tKMC && a.Field == "pubPassphrase" {
+				n++
+				sl := backSlice(a.In.(*ssa.Store).Val)
+				if !sl.hasParam(f, "newPubPass") || sl.hasParam(f, "oldPubPass") {
+					ok = false
+				}
+			}
+			if a.Kind == "store" && a.Type == tAddrMgr && a.Field == "masterKeyPub" {
+				n++
+				good := false
+				for x := range backSlice(a.In.(*ssa.Store).Val).vals {
+					if cl, isC := x.(*ssa.Call); isC {
+						if g, isG := unwrapGlobalLoad(cl.Call.Value); isG && g.Name() == "secretKeyGen" && len(cl.Call.Args) > 0 && cellHoldsParam(cl.Call.Args[0], f, "newPubPass") {
+							good = true
+						}
+					}
+				}
+				if !good {
+					ok = false
+				}
+			}
+		}
+		if ok && n >= 2 {
+			c.OK("C02-PAIR", key, c.Pos(f.Pos()), "kmc.pubPassphrase ← newPubPass; masterKeyPub ← secretKeyGen(&newPubPass)")
+		} else {
+			c.Bad("C02-PAIR", key, c.Pos(f.Pos()), "after a public passphrase change the running instance keeps a value that is not the new passphrase (or a master key not derived from it): keystores created afterwards are sealed under it and the store cannot be reopened with the current passphrase")
+		}
+	}
+	checkNoDeadShift(c, "C02-KEYS", []string{pkgKeystore, pkgLDB, pkgDB})
+	checkKeyConstantsDistinct(c, "C02-KEYS")
 	c02Errflow(c)
 	c02Keys(c)
 	c02Prov(c)
